@@ -10,9 +10,13 @@ namespace GmQuic.Cid
 /-! ## locally issued ids and the shared router (`Sys`: any number of connections on one router)
 
 `Hist Sys.init ops`: the only hypothesis on histories — the client-chosen original DCID handed to a new server
-connection is not a key of the router table at that moment (`QuicRouter::deliver` creates a connection only for a
-packet that found no entry).  Without it `QuicRouter::insert` overwrites another connection's entry
-(`router_insert_overwrites`). -/
+connection is not an id that some connection has issued and not retired (`OdcidNotIssued`; `QuicRouter::deliver`
+creates a connection only for a packet that found no entry).  Without it `QuicRouter::insert` overwrites another
+connection's issued id and that connection's later `retire_cid` removes the newcomer's route (`router_insert_overwrites`).
+The original DCID MAY be a signpost another connection registered the same way (same first flight seen twice): the
+histories include such take-overs, and every order of dropping a connection's `LocalCids`, releasing its packet queue
+(`relQueue`) and dropping its `QuicRouterEntry` (`dropOdcid`).  `Owns s k c`: `c` is issued and unretired by `k`, or `k`
+holds the entry of the signpost `c` and no later connection has re-registered it (ghost flag `olive`). -/
 
 /-- lookup of an id returns connection `k` **iff** `k` currently owns it (issued and unretired, or its registered
 original DCID): live ids reach exactly their own connection, retired / cleared / dropped ones reach nobody. -/
@@ -41,14 +45,53 @@ theorem router_dropped_conn_unrouted (ops : List Op) (h : Hist Sys.init ops) (k 
   rw [hk] at h1; cases h1
   rcases h2 with h2 | h2
   · rw [hdq] at h2; cases h2
-  · rw [hod] at h2; cases h2
+  · rw [hod] at h2; cases h2.1
 
 /-- `clear` and `drop` leave no id behind -/
 theorem clear_leaves_nothing (l : Local) : l.clear.1.dq = [] ∧ l.clear.2 = l.active := ⟨rfl, rfl⟩
 
 example : Hist Sys.init [.conn none, .conn (some (.ext 7)), .setLimit 0 4, .retire 0 1, .retire 1 0, .drop 0,
     .dropOdcid 1, .route (.gen 3)] := by
-  simp [Hist, OdcidFresh, Sys.step, Sys.init, Table.lookup, Table.insert, Table.erase]
+  simp [Hist, OdcidNotIssued, Sys.step, Sys.supersede, Sys.init, Local.new]
+
+/-- take-over + tear-down in the order of seeded c14r2-2: two connections register the same original DCID, the first one
+drops its `LocalCids`, releases its queue and only then drops its (superseded) entry — a legal history, and the signpost
+still reaches the second connection -/
+example :
+    Hist Sys.init [.conn (some (.ext 7)), .conn (some (.ext 7)), .drop 0, .relQueue 0, .dropOdcid 0] ∧
+    (Sys.run [.conn (some (.ext 7)), .conn (some (.ext 7)), .drop 0, .relQueue 0, .dropOdcid 0]).table.lookup (.ext 7) = some 1 := by
+  refine ⟨?_, by decide⟩
+  simp [Hist, OdcidNotIssued, Sys.step, Sys.supersede, Sys.init, Local.new]
+
+/-- releasing a connection's packet queue changes nothing, wherever it stands in the history
+(`QuicRouterEntry::remove` compares by pointer and never looks whether the queue is alive) -/
+theorem rel_queue_no_effect (s : Sys) (k : Nat) : (s.step (.relQueue k)).1 = s := by
+  simp only [Sys.step]
+  split <;> rfl
+
+/-- dropping a superseded entry (another connection has re-registered its signpost) leaves every route where it is —
+in every reachable state, so in any order with the drop of the connection's `LocalCids` and the release of its queue -/
+theorem superseded_entry_drop_keeps_routes (ops : List Op) (h : Hist Sys.init ops) (k : Nat) (cn : Conn) (od : Cid)
+    (hk : (Sys.run ops).conns[k]? = some cn) (hod : cn.odcid = some od) (hst : cn.olive = false) (x : Cid) :
+    ((Sys.run ops).step (.dropOdcid k)).1.table.lookup x = (Sys.run ops).table.lookup x := by
+  have hi := inv_run ops h
+  generalize Sys.run ops = s at *
+  have hc := hi.conn k cn hk
+  have hl : ¬ s.table.lookup od = some k := by
+    intro hl
+    obtain ⟨cn', h1, h2⟩ := (hi.dom od k).1 hl
+    rw [hk] at h1; cases h1
+    rcases h2 with h2 | ⟨_, h2⟩
+    · exact (hc.od _ hod).1 h2
+    · rw [hst] at h2; cases h2
+  simp only [Sys.step, hk, hod]
+  show (s.table.removeIf od k).lookup x = _
+  rw [Table.lookup_removeIf _ hi.wf]
+  simp [hl]
+
+example :
+    let s := Sys.run [.conn (some (.ext 7)), .conn (some (.ext 7))]
+    ∃ cn, s.conns[0]? = some cn ∧ cn.odcid = some (.ext 7) ∧ cn.olive = false := ⟨_, rfl, rfl, rfl⟩
 
 /-- the hypothesis matters: `QuicRouter::insert` overwrites — a new connection whose original DCID equals a live id
 of another connection takes over its routing. -/
